@@ -187,9 +187,22 @@ class Index:
                     raise AnalysisError(f"cannot parse {rel}: {e}")
                 self._digest.update(rel.encode())
                 self._digest.update(src.encode())
-        for rel in self.overlay:
+        for rel in sorted(self.overlay):
             if not any(m.relpath == rel for m in self.modules.values()):
-                raise AnalysisError(f"overlay path {rel} is not a module of the package")
+                # a module the overlay adds (a change that creates a new file)
+                prefix = os.path.join("src", PKG) + os.sep
+                if not (rel.startswith(prefix) and rel.endswith(".py")):
+                    raise AnalysisError(f"overlay path {rel} is not a module of the package")
+                modrel = rel[len("src" + os.sep):-3].replace(os.sep, ".")
+                is_pkg = modrel.endswith(".__init__")
+                if is_pkg:
+                    modrel = modrel[: -len(".__init__")]
+                try:
+                    self.modules[modrel] = Module(modrel, os.path.join(root, rel), rel, self.overlay[rel], is_pkg)
+                except SyntaxError as e:
+                    raise AnalysisError(f"cannot parse {rel}: {e}")
+                self._digest.update(rel.encode())
+                self._digest.update(self.overlay[rel].encode())
         self._class_cache: Dict[str, ClassInfo] = {}
         for m in self.modules.values():
             for name, defs in m.defs.items():
@@ -314,6 +327,13 @@ class Index:
             return m, pick_def(ci.methods[meth])
         defs = [d for d in m.defs.get(fname, []) if isinstance(d, (ast.FunctionDef, ast.AsyncFunctionDef))]
         if not defs:
+            # the function may have moved to another module of the package: follow the import, else a unique definition
+            s = self.resolve(m, fname)
+            if s is not None and s.kind == "func" and s.module is not None and isinstance(s.node, ast.FunctionDef):
+                return s.module, s.node
+            homes = [(mm, d) for mm in self.modules.values() for d in mm.defs.get(fname, []) if isinstance(d, ast.FunctionDef)]
+            if len(homes) == 1:
+                return homes[0]
             raise AnchorMissing(f"function {modname}:{fname} not found", site=f"{m.relpath}:{fname}")
         return m, pick_def(defs)
 
